@@ -780,7 +780,7 @@ pub fn run(ctx: &Ctx) -> i32 {
         ctx.tier,
         ctx.seed,
         "exploration",
-        "directed graphs with self-loops: ALL graphs on 1..4 nodes (2+16+512+65536, exhaustive) and random graphs on 5..12 nodes (edge density drawn per case, DAG-biased half of the time with an optional single back edge), each realised as a function-block instance graph (VAR / VAR_INPUT / VAR_OUTPUT instances) as a type graph (alias / structure element) and as a mixed graph (every node a function block or a structure, edges = instance variables / structure elements; in a third of the graphs a quarter of the edges go through ARRAY OF and are soft: cycles only through them are not judged), declarations in a seed-derived order, every reference spelled in lower, UPPER or Capitalised case, other variables / elements (plain, initialised, enumeration, array, string, structure with initialiser) declared before the edge declarations, a quarter of the edges declared twice (two instances / elements of one type); in a third of the units bystander declarations of every other kind (all TYPE forms incl. structure initialisation, function, program, configuration); in a third of the function-block realisations bodies that invoke the instances, with instances and variables named like declarations of the unit. Large graphs (chains, fan-out, fan-in, layered and sparse DAGs on 40 / 120 / 400 nodes, half with one back edge) through `ironplcc check`. Oracle: reference DFS cycle test (cross-checked by transitive closure for n<=4): cyclic => P0010 or P0013 reported; acyclic => neither. Non-trivial: >= 2 nodes and >= 1 edge; distinct by program text.",
+        "directed graphs with self-loops: ALL graphs on 1..4 nodes (2+16+512+65536, exhaustive) and random graphs on 5..12 nodes (edge density drawn per case, DAG-biased half of the time with an optional single back edge), each realised as a function-block instance graph (VAR / VAR_INPUT / VAR_OUTPUT instances) as a type graph (alias / structure element; enumeration values and defaults now and then written with the declaration's own name or the root enumeration's name in front: no edge) and as a mixed graph (every node a function block or a structure, edges = instance variables / structure elements; in a third of the graphs a quarter of the edges go through ARRAY OF and are soft: cycles only through them are not judged), declarations in a seed-derived order, every reference spelled in lower, UPPER or Capitalised case, other variables / elements (plain, initialised, enumeration, array, string, structure with initialiser) declared before the edge declarations, a quarter of the edges declared twice (two instances / elements of one type); in a third of the units bystander declarations of every other kind (all TYPE forms incl. structure initialisation, function, program, configuration); in a third of the function-block realisations bodies that invoke the instances, with instances and variables named like declarations of the unit. Large graphs (chains, fan-out, fan-in, layered and sparse DAGs on 40 / 120 / 400 nodes, half with one back edge) through `ironplcc check`. Oracle: reference DFS cycle test (cross-checked by transitive closure for n<=4): cyclic => P0010 or P0013 reported; acyclic => neither. Non-trivial: >= 2 nodes and >= 1 edge; distinct by program text.",
     );
     // exhaustive part
     let mut items: Vec<(usize, u64)> = vec![];
